@@ -1,67 +1,112 @@
 --------------------------- MODULE Trace_BitmapRb ---------------------------
 (* Trace validation for C16: every line that harness/bmdrv.c logs (operation, arguments as the caller passed
-   them, result on each back end, rbtree extents + cursors from hook H2, full bit vector of each back end) must be
-   the step BitmapRb takes, and the invariants of BitmapRb are evaluated after every line.
+   them, result on each back end, rbtree extents + cursors from hook H2, full bit vector of each back end as runs
+   of ones) must be the step BitmapRb takes, and the invariants of BitmapRb are evaluated after every line.
    The cluster conversion of the generic layer (gen_bitmap64.c) is applied here, as the code applies it before
-   calling the back end.                                                                                        *)
-EXTENDS BitmapRb, Json, IOUtils, Integers
-VARIABLES l, bstart, ratio
-tvars == <<vars, l, bstart, ratio>>
+   calling the back end.
+
+   Interval abstraction (DESIGN 2.3, header of BitmapRb).  A behaviour's reset line carries a table of cut points
+   cut = <<c_0 = 0, c_1, ..., c_K>> (bit positions relative to the bitmap start, increasing; drawn by the check from
+   the boundary catalogue of the real constants).  BitmapRb then runs on CELL indices: cell k = c_k .. c_(k+1) - 1.
+   Every logged position (argument, extent bound, run bound, find-first answer, end, real_end) must be a cut point
+   and is replaced by its index; a line that shows any other position is rejected (no cell of the reference set can
+   be half set).  An empty table means positions are bits (cells of width one), which is the small-range mode. *)
+EXTENDS BitmapRb, Json, IOUtils, Integers, FiniteSets
+VARIABLES l, bstart, ratio, cut
+tvars == <<vars, l, bstart, ratio, cut>>
 Tr == ndJsonDeserialize(IOEnv.TRACE)
 
 ToSet(q) == {q[i] : i \in 1..Len(q)}
-ToExt(q) == [i \in 1..Len(q) |-> <<q[i][1], q[i][2]>>]
-C(blk) == (blk \div ratio) - bstart                              \* arg >>= cluster_bits; arg -= bitmap->start
-CN(blk, num) == ((blk + num + ratio - 1) \div ratio) - (blk \div ratio)
+\* ---- the order-preserving map between real positions and cell indices (ct: a cut table)
+IsCutIn(ct, p) == ct = <<>> \/ \E k \in 1..Len(ct) : ct[k] = p
+PIn(ct, p) == IF ct = <<>> THEN p
+              ELSE IF \E k \in 1..Len(ct) : ct[k] = p THEN (CHOOSE k \in 1..Len(ct) : ct[k] = p) - 1
+              ELSE -1000                                              \* never equal to anything the spec computes
+IsCut(p) == IsCutIn(cut, p)
+P(p) == PIn(cut, p)
+Unp(k) == IF cut = <<>> THEN k ELSE IF k + 1 \in 1..Len(cut) THEN cut[k + 1] ELSE -1000    \* cell index -> its first bit
+CellOf(p) == IF cut = <<>> THEN p ELSE Cardinality({k \in 1..Len(cut) : cut[k] <= p}) - 1  \* the cell holding bit p
+OneBit(p) == IsCut(p) /\ IsCut(p + 1)                                  \* p is a cell of its own
+Wide == IF cut = <<>> THEN {} ELSE {k \in 0..(Len(cut) - 2) : cut[k + 2] - cut[k + 1] > 1}
+PEnd(p) == P(p + 1) - 1                                                \* inclusive last bit -> inclusive last cell
+Holds(p) == p = TRUE
+
+\* ---- what the generic layer does with the caller's block numbers (relative, in bitmap units)
+U(blk) == (blk \div ratio) - bstart                                   \* arg >>= cluster_bits; arg -= bitmap->start
+UE(blk, num) == ((blk + num + ratio - 1) \div ratio) - bstart         \* exclusive end of a range, rounded up
+C(blk) == P(U(blk))
+CN(blk, num) == P(UE(blk, num)) - P(U(blk))
+RangeOk(blk, num) == IsCut(U(blk)) /\ IsCut(UE(blk, num))
+\* runs of ones <<first, length>> (relative to base) -> set of cells, relative to the cell of base
+RunsOk(runs, base) == \A i \in 1..Len(runs) : IsCut(base + runs[i][1]) /\ IsCut(base + runs[i][1] + runs[i][2]) /\ runs[i][2] > 0
+RunCells(runs, base) == UNION {(P(base + runs[i][1]) - P(base))..(P(base + runs[i][1] + runs[i][2]) - P(base) - 1) : i \in 1..Len(runs)}
+ExtOk(q) == \A i \in 1..Len(q) : IsCut(q[i][1]) /\ IsCut(q[i][1] + q[i][2])
+ToExt(q) == [i \in 1..Len(q) |-> <<P(q[i][1]), P(q[i][1] + q[i][2]) - P(q[i][1])>>]
 OnesOf(f, n) == {i - 1 : i \in {j \in 1..n : f[j] = 1}}
-BitsFromOffsets(offs, n) == [i \in 1..n |-> IF (i - 1) \in ToSet(offs) THEN 1 ELSE 0]
+BitsFromRuns(runs, base, n) == LET on == RunCells(runs, base) IN [i \in 1..n |-> IF (i - 1) \in on THEN 1 ELSE 0]
 \* ext2fs_find_first_*_generic_bmap: back-end answer (relative cluster) -> block number reported to the caller
 FFOut(v, a) == IF v = ENOENT THEN ENOENT
-               ELSE LET blk == (v + bstart) * ratio IN IF blk >= a THEN blk ELSE a
+               ELSE LET blk == (Unp(v) + bstart) * ratio IN IF blk >= a THEN blk ELSE a
 
 IsEvent(e) == l <= Len(Tr) /\ Tr[l].e = e /\ l' = l + 1
 \* what every line logs after the operation
-Logged == /\ ext' = ToExt(Tr[l].ext)
+Logged == /\ Holds(ExtOk(Tr[l].ext)) /\ ext' = ToExt(Tr[l].ext)
           /\ cur' = [w |-> Tr[l].w, r |-> Tr[l].r, n |-> Tr[l].n]
-          /\ end' = Tr[l].end /\ rend' = Tr[l].rend
-          /\ ToSet(Tr[l].bits[1]) = S'                              \* bit array back end
-          /\ (Tr[l].has32 = 1 => ToSet(Tr[l].bits[3]) = S')          \* legacy 32-bit back end
-          /\ ToSet(Tr[l].rbff) = S'                                  \* rbtree read back through ffs/ffz
-Keep == UNCHANGED <<bstart, ratio>>
+          /\ end' = PEnd(Tr[l].end) /\ rend' = PEnd(Tr[l].rend)
+          /\ Holds(RunsOk(Tr[l].runs[1], 0)) /\ RunCells(Tr[l].runs[1], 0) = S'      \* bit array back end
+          /\ (Tr[l].has32 = 1 => Holds(RunsOk(Tr[l].runs[3], 0)) /\ RunCells(Tr[l].runs[3], 0) = S')   \* legacy 32-bit back end
+          /\ Holds(RunsOk(Tr[l].rbrun, 0)) /\ RunCells(Tr[l].rbrun, 0) = S'          \* rbtree read back through ffs/ffz
+Keep == UNCHANGED <<bstart, ratio, cut>>
 Ret(i) == Tr[l].ret[i]
 \* result agreement: rbtree answer = transcription, bit array and legacy answers = the reference set
 Rets == /\ Ret(2) = res'.impl /\ Ret(1) = res'.ref /\ (Tr[l].has32 = 1 => Ret(3) = res'.ref)
 
 TReset == /\ IsEvent("reset")
           /\ ext' = <<>> /\ cur' = NoCur /\ S' = {} /\ res' = R("init", 0, 0)
-          /\ end' = Tr[l].rs_end /\ rend' = Tr[l].rs_rend
+          /\ cut' = Tr[l].cut
+          /\ Holds(IsCutIn(Tr[l].cut, 0) /\ IsCutIn(Tr[l].cut, Tr[l].rs_end + 1) /\ IsCutIn(Tr[l].cut, Tr[l].rs_rend + 1))
+          /\ Holds(\A k \in 1..(Len(Tr[l].cut) - 1) : Tr[l].cut[k] < Tr[l].cut[k + 1])
+          /\ end' = PIn(Tr[l].cut, Tr[l].rs_end + 1) - 1 /\ rend' = PIn(Tr[l].cut, Tr[l].rs_rend + 1) - 1
           /\ bstart' = Tr[l].start /\ ratio' = 2 ^ Tr[l].cb
           /\ Tr[l].ext = <<>> /\ Tr[l].w = 0 /\ Tr[l].r = 0 /\ Tr[l].n = 0
-TMark   == IsEvent("mark")   /\ Mark(C(Tr[l].a))   /\ Logged /\ Rets /\ Keep
-TUnmark == IsEvent("unmark") /\ Unmark(C(Tr[l].a)) /\ Logged /\ Rets /\ Keep
-TTest   == IsEvent("test")   /\ Test(C(Tr[l].a))   /\ Logged /\ Rets /\ Keep
-TMarkR  == IsEvent("mark_range")   /\ MarkRange(C(Tr[l].a), CN(Tr[l].a, Tr[l].b))   /\ Logged /\ Keep
-TUnmarkR == IsEvent("unmark_range") /\ UnmarkRange(C(Tr[l].a), CN(Tr[l].a, Tr[l].b)) /\ Logged /\ Keep
-TTestR  == IsEvent("test_range")   /\ TestClearRange(C(Tr[l].a), CN(Tr[l].a, Tr[l].b)) /\ Logged /\ Rets /\ Keep
-TFfz == /\ IsEvent("ffz") /\ Ffz(C(Tr[l].a), C(Tr[l].b)) /\ Logged /\ Keep
+\* single-bit mark / unmark act on a cell of its own; a test may fall anywhere inside a cell
+TMark   == IsEvent("mark")   /\ Holds(OneBit(U(Tr[l].a))) /\ Mark(C(Tr[l].a))   /\ Logged /\ Rets /\ Keep
+TUnmark == IsEvent("unmark") /\ Holds(OneBit(U(Tr[l].a))) /\ Unmark(C(Tr[l].a)) /\ Logged /\ Rets /\ Keep
+TTest   == IsEvent("test")   /\ Test(CellOf(U(Tr[l].a)))   /\ Logged /\ Rets /\ Keep
+TMarkR  == IsEvent("mark_range")   /\ Holds(RangeOk(Tr[l].a, Tr[l].b)) /\ MarkRange(C(Tr[l].a), CN(Tr[l].a, Tr[l].b))   /\ Logged /\ Keep
+TUnmarkR == IsEvent("unmark_range") /\ Holds(RangeOk(Tr[l].a, Tr[l].b)) /\ UnmarkRange(C(Tr[l].a), CN(Tr[l].a, Tr[l].b)) /\ Logged /\ Keep
+\* (a range test of exactly one bit is routed through test_bmap by the generic layer and is not issued)
+TTestR  == IsEvent("test_range")   /\ Holds(RangeOk(Tr[l].a, Tr[l].b) /\ Tr[l].b >= 2)
+           /\ TestClearRange(C(Tr[l].a), CN(Tr[l].a, Tr[l].b)) /\ Logged /\ Rets /\ Keep
+FFArgs == Holds(IsCut(U(Tr[l].a)) /\ IsCut(U(Tr[l].b) + 1))
+TFfz == /\ IsEvent("ffz") /\ FFArgs /\ Ffz(C(Tr[l].a), PEnd(U(Tr[l].b))) /\ Logged /\ Keep
         /\ Ret(2) = FFOut(res'.impl, Tr[l].a) /\ Ret(1) = FFOut(res'.ref, Tr[l].a)
         /\ (Tr[l].has32 = 1 => Ret(3) = FFOut(res'.ref, Tr[l].a))
-TFfs == /\ IsEvent("ffs") /\ Ffs(C(Tr[l].a), C(Tr[l].b)) /\ Logged /\ Keep
+TFfs == /\ IsEvent("ffs") /\ FFArgs /\ Ffs(C(Tr[l].a), PEnd(U(Tr[l].b))) /\ Logged /\ Keep
         /\ Ret(2) = FFOut(res'.impl, Tr[l].a) /\ Ret(1) = FFOut(res'.ref, Tr[l].a)
         /\ (Tr[l].has32 = 1 => Ret(3) = FFOut(res'.ref, Tr[l].a))
 \* get/set_range take positions in bitmap units (not divided by the cluster ratio), as rw_bitmaps.c passes them
-TGet == /\ IsEvent("get_range") /\ GetRange(Tr[l].a - bstart, Tr[l].b) /\ Logged /\ Keep
-        /\ ToSet(Ret(2)) = OnesOf(res'.impl, Tr[l].b) /\ ToSet(Ret(1)) = OnesOf(res'.ref, Tr[l].b)
-        /\ (Tr[l].has32 = 1 => ToSet(Ret(3)) = OnesOf(res'.ref, Tr[l].b))
-TSet == IsEvent("set_range") /\ SetRange(Tr[l].a - bstart, BitsFromOffsets(Tr[l].bitsin, Tr[l].b)) /\ Logged /\ Keep
+GBase == Tr[l].a - bstart
+GLen == P(GBase + Tr[l].b) - P(GBase)
+GArgs == Holds(IsCut(GBase) /\ IsCut(GBase + Tr[l].b))
+TGet == /\ IsEvent("get_range") /\ GArgs /\ GetRange(P(GBase), GLen) /\ Logged /\ Keep
+        /\ Holds(RunsOk(Ret(2), GBase)) /\ RunCells(Ret(2), GBase) = OnesOf(res'.impl, GLen)
+        /\ Holds(RunsOk(Ret(1), GBase)) /\ RunCells(Ret(1), GBase) = OnesOf(res'.ref, GLen)
+        /\ (Tr[l].has32 = 1 => Holds(RunsOk(Ret(3), GBase)) /\ RunCells(Ret(3), GBase) = OnesOf(res'.ref, GLen))
+TSet == /\ IsEvent("set_range") /\ GArgs /\ Holds(RunsOk(Tr[l].bitsin, GBase))
+        /\ SetRange(P(GBase), BitsFromRuns(Tr[l].bitsin, GBase, GLen)) /\ Logged /\ Keep
 TClear == IsEvent("clear") /\ Clear /\ Logged /\ Keep
 TCopy  == IsEvent("copy") /\ Copy /\ Logged /\ Keep
 TPad   == IsEvent("set_padding") /\ SetPadding /\ Logged /\ Keep
-TResize == IsEvent("resize") /\ Resize(Tr[l].a - bstart, Tr[l].b - bstart) /\ Logged /\ Keep
-TCmp == /\ IsEvent("cmp") /\ (IF Tr[l].a < 0 THEN CompareEq ELSE CompareFlip(Tr[l].a - bstart)) /\ Logged /\ Rets /\ Keep
+TResize == /\ IsEvent("resize") /\ Holds(IsCut(Tr[l].a - bstart + 1) /\ IsCut(Tr[l].b - bstart + 1))
+           /\ Resize(PEnd(Tr[l].a - bstart), PEnd(Tr[l].b - bstart)) /\ Logged /\ Keep
+TCmp == /\ IsEvent("cmp")
+        /\ (IF Tr[l].a < 0 THEN CompareEqW(Wide)
+            ELSE Holds(OneBit(Tr[l].a - bstart)) /\ CompareFlipW(P(Tr[l].a - bstart), Wide))
+        /\ Logged /\ Rets /\ Keep
 
 TraceInit == /\ ext = <<>> /\ cur = NoCur /\ S = {} /\ res = R("init", 0, 0) /\ end = 0 /\ rend = 0
-             /\ l = 1 /\ bstart = 0 /\ ratio = 1
+             /\ l = 1 /\ bstart = 0 /\ ratio = 1 /\ cut = <<>>
 TraceNext == TReset \/ TMark \/ TUnmark \/ TTest \/ TMarkR \/ TUnmarkR \/ TTestR \/ TFfz \/ TFfs \/ TGet \/ TSet
              \/ TClear \/ TCopy \/ TPad \/ TResize \/ TCmp
 TraceSpec == TraceInit /\ [][TraceNext]_tvars
